@@ -3,6 +3,15 @@ From Coq Require Import List Bool NArith ZArith Lia Permutation.
 From RN Require Import Base.AMap.
 Import ListNotations.
 
+Lemma NoDup_app_snoc : forall {A} (l : list A) (a : A), NoDup l -> ~ In a l -> NoDup (l ++ [a]).
+Proof.
+  induction l as [|x l IH]; cbn; intros a Hn Hi.
+  - constructor; auto.
+  - inversion Hn; subst. constructor.
+    + rewrite in_app_iff. cbn. intros [H|[H|[]]]; [tauto | subst; tauto].
+    + apply IH; tauto.
+Qed.
+
 Section AMapProofs.
   Context {K V : Type} (eqd : forall a b : K, {a = b} + {a <> b}).
   Notation aget := (@aget K V eqd).
@@ -67,7 +76,7 @@ Section AMapProofs.
     - tauto.
     - destruct (eqd k k').
       + subst. split; [discriminate | intros H; exfalso; apply H; auto].
-      + rewrite IH. split; intros H; [intros [H1|H1]; congruence | tauto].
+      + rewrite IH. split; intros H; [intros [H1|H1]; [congruence | auto] | tauto].
   Qed.
 
   Lemma aget_Some_in : forall k m, (exists v, aget k m = Some v) <-> In k (akeys m).
@@ -92,7 +101,7 @@ Section AMapProofs.
     induction m as [|[k' v'] m IH]; cbn; intros H; [tauto|].
     destruct (eqd k k'); cbn.
     - subst; auto.
-    - f_equal. apply IH. destruct H; congruence.
+    - f_equal. apply IH. destruct H; [congruence | assumption].
   Qed.
 
   Lemma akeys_aset_notin : forall k v m, ~ In k (akeys m) -> akeys (aset k v m) = akeys m ++ [k].
